@@ -23,7 +23,7 @@ import (
 type e2SchedArgs struct {
 	E2      E2Params    `json:"e2"`
 	Setup   []pt.Action `json:"setup"`
-	Conc    []pt.Action `json:"conc"`    // each runs as one activity
+	Conc    []pt.Action `json:"conc"`     // each runs as one activity
 	AtPoint []string    `json:"at_point"` // oracles evaluated at every decision point: snapshots
 	AtEnd   []string    `json:"at_end"`   // oracles at the end (after closure): log converge applied issued reference snapshots onedoc quiescent
 	NoClose bool        `json:"no_close"` // do not run closing syncs (realtime convergence must happen by itself)
